@@ -17,8 +17,9 @@ CLAIMED = {
  "C17": dict(
    text="Lean theorems for every value/type/timestamp string and every crypto instance satisfying functional correctness (Sound): round trip in "
         "the four key configurations under the forced separator guards (with counter-example theorems for the guards), unique parse of "
-        "authenticated bytes in signed+encrypted mode under ciphertext integrity, and a proved counter-example (boundary shift) for signed-only "
-        "mode; the model is tied to CookieHandler by correspondence on round trips and structural mutations of genuine cookies.",
+        "authenticated bytes in signed+encrypted mode under ciphertext integrity and in signed-only mode under MAC unforgeability "
+        "(signed_unique_parse: the MAC input frames payload and timestamp, lv_pack is injective — pack_injective — so no boundary can move; "
+        "concatenation_is_not_injective documents what the repaired format prevents); the model is tied to CookieHandler by correspondence on round trips and structural mutations of genuine cookies.",
    note="HMAC/AES-GCM/Fernet/base64 are parameters of the model; their values on the needed points are supplied to the driver by the harness. "
         "Client-side cookie code not modelled.",
    technique="Lean 4 proof (decision logic over an abstract crypto interface + length-value framing lemmas) + correspondence on mutated cookies", ref="6 C17"),
